@@ -46,7 +46,8 @@ Definition step_m (s : mstate) (a : mstep) : mstate * mres :=
   match a with
   | MCall c =>
       match route (m_inner s) c with
-      | (None, ps) => let '(q', n') := menqueue (m_queue s) (m_next s) ps in
+      | (None, ps) => if rejects c then (s, MRUnsupported) else
+                      let '(q', n') := menqueue (m_queue s) (m_next s) ps in
                       (upd (m_inner s) q' (m_now s) n' (m_workers s), MROk)
       | (Some _, _) => (s, MRUnsupported)
       end
@@ -104,7 +105,7 @@ Fixpoint m_accepted (s : mstate) (tr : list mstep) : list call :=
   | [] => []
   | a :: t =>
       (match a with
-       | MCall c => match route (m_inner s) c with (None, ps) => map replay_call ps | _ => [] end
+       | MCall c => match route (m_inner s) c with (None, ps) => if rejects c then [] else map replay_call ps | _ => [] end
        | _ => []
        end) ++ m_accepted (fst (step_m s a)) t
   end.
